@@ -545,3 +545,191 @@ Proof.
   intros ce inv p k ck n Hce He.
   destruct (front_entry_count c g ns P C Hf ce inv p k ck n Hce He) as [H _]. lia.
 Qed.
+
+(** ** F. C13 at run level: the options of the shexing stage are read by
+    [shex] only (through [scfg_of]); prefix choice, tracker and profiler
+    ignore them *)
+
+(** two configurations that agree on everything read before the shexing stage *)
+Definition front_agree (c1 c2 : rcfg) : Prop :=
+  r_tau c1 = r_tau c2 /\ r_targets c1 = r_targets c2 /\ r_ns c1 = r_ns c2 /\
+  r_shapes_ns c1 = r_shapes_ns c2 /\ r_cap c1 = r_cap c2 /\ r_inverse c1 = r_inverse c2 /\
+  r_remove_empty c1 = r_remove_empty c2.
+
+Lemma front_agree_eq c1 c2 g : front_agree c1 c2 -> full_ns c1 = full_ns c2 /\ front c1 g = front c2 g.
+Proof.
+  destruct c1, c2. unfold front_agree, full_ns, front, tmode_of, pcfg_of. cbn.
+  intros (-> & -> & -> & -> & -> & -> & ->). split; reflexivity.
+Qed.
+
+(** generic: a relation between the two shexing stages lifts to the runs *)
+Lemma run_shapes_rel fa c1 c2 thr g (R : list shape -> list shape -> Prop) :
+  front_agree c1 c2 ->
+  (forall ns P C, res_rel R (shex fa (scfg_of c1 ns) thr P C) (shex fa (scfg_of c2 ns) thr P C)) ->
+  res_rel (fun x y => fst x = fst y /\ R (snd x) (snd y)) (run_shapes fa c1 thr g) (run_shapes fa c2 thr g).
+Proof.
+  intros Ha Hs. destruct (front_agree_eq c1 c2 g Ha) as [E1 E2].
+  rewrite !run_shapes_front, E1, E2.
+  destruct (full_ns c2) as [ns|]; [|reflexivity].
+  destruct (front c2 g) as [[P C]|e]; [|reflexivity].
+  specialize (Hs ns P C).
+  destruct (shex fa (scfg_of c1 ns) thr P C), (shex fa (scfg_of c2 ns) thr P C); cbn in *;
+    [auto | contradiction | contradiction | congruence].
+Qed.
+
+(** generic: an equation [shex1 = map_res f shex2] lifts to the runs *)
+Definition on_shapes (f : list shape -> list shape) (x : nsdict * list shape) : nsdict * list shape :=
+  (fst x, f (snd x)).
+
+Lemma run_shapes_post fa c1 c2 thr g (f : list shape -> list shape) :
+  front_agree c1 c2 ->
+  (forall ns P C, shex fa (scfg_of c1 ns) thr P C = map_res f (shex fa (scfg_of c2 ns) thr P C)) ->
+  run_shapes fa c1 thr g = map_res (on_shapes f) (run_shapes fa c2 thr g).
+Proof.
+  intros Ha Hs. destruct (front_agree_eq c1 c2 g Ha) as [E1 E2].
+  rewrite !run_shapes_front, E1, E2.
+  destruct (full_ns c2) as [ns|]; [|reflexivity].
+  destruct (front c2 g) as [[P C]|e]; [|reflexivity].
+  rewrite (Hs ns P C). destruct (shex fa (scfg_of c2 ns) thr P C); reflexivity.
+Qed.
+
+(** one-field updates of the run configuration *)
+Definition rwith_disable_comments (b : bool) (c : rcfg) : rcfg :=
+  {| r_tau := r_tau c; r_targets := r_targets c; r_ns := r_ns c; r_shapes_ns := r_shapes_ns c;
+     r_cap := r_cap c; r_inverse := r_inverse c; r_remove_empty := r_remove_empty c;
+     r_discard_useless := r_discard_useless c; r_keep_less_specific := r_keep_less_specific c;
+     r_all_compliant := r_all_compliant c; r_disable_or := r_disable_or c;
+     r_allow_redundant_or := r_allow_redundant_or c; r_allow_opt := r_allow_opt c;
+     r_disable_exact := r_disable_exact c; r_disable_comments := b; r_mode := r_mode c |}.
+
+Definition rwith_allow_opt (b : bool) (c : rcfg) : rcfg :=
+  {| r_tau := r_tau c; r_targets := r_targets c; r_ns := r_ns c; r_shapes_ns := r_shapes_ns c;
+     r_cap := r_cap c; r_inverse := r_inverse c; r_remove_empty := r_remove_empty c;
+     r_discard_useless := r_discard_useless c; r_keep_less_specific := r_keep_less_specific c;
+     r_all_compliant := r_all_compliant c; r_disable_or := r_disable_or c;
+     r_allow_redundant_or := r_allow_redundant_or c; r_allow_opt := b;
+     r_disable_exact := r_disable_exact c; r_disable_comments := r_disable_comments c; r_mode := r_mode c |}.
+
+Definition rwith_disable_exact (b : bool) (c : rcfg) : rcfg :=
+  {| r_tau := r_tau c; r_targets := r_targets c; r_ns := r_ns c; r_shapes_ns := r_shapes_ns c;
+     r_cap := r_cap c; r_inverse := r_inverse c; r_remove_empty := r_remove_empty c;
+     r_discard_useless := r_discard_useless c; r_keep_less_specific := r_keep_less_specific c;
+     r_all_compliant := r_all_compliant c; r_disable_or := r_disable_or c;
+     r_allow_redundant_or := r_allow_redundant_or c; r_allow_opt := r_allow_opt c;
+     r_disable_exact := b; r_disable_comments := r_disable_comments c; r_mode := r_mode c |}.
+
+Definition rwith_all_compliant (b : bool) (c : rcfg) : rcfg :=
+  {| r_tau := r_tau c; r_targets := r_targets c; r_ns := r_ns c; r_shapes_ns := r_shapes_ns c;
+     r_cap := r_cap c; r_inverse := r_inverse c; r_remove_empty := r_remove_empty c;
+     r_discard_useless := r_discard_useless c; r_keep_less_specific := r_keep_less_specific c;
+     r_all_compliant := b; r_disable_or := r_disable_or c;
+     r_allow_redundant_or := r_allow_redundant_or c; r_allow_opt := r_allow_opt c;
+     r_disable_exact := r_disable_exact c; r_disable_comments := r_disable_comments c; r_mode := r_mode c |}.
+
+Definition rwith_disable_or (b : bool) (c : rcfg) : rcfg :=
+  {| r_tau := r_tau c; r_targets := r_targets c; r_ns := r_ns c; r_shapes_ns := r_shapes_ns c;
+     r_cap := r_cap c; r_inverse := r_inverse c; r_remove_empty := r_remove_empty c;
+     r_discard_useless := r_discard_useless c; r_keep_less_specific := r_keep_less_specific c;
+     r_all_compliant := r_all_compliant c; r_disable_or := b;
+     r_allow_redundant_or := r_allow_redundant_or c; r_allow_opt := r_allow_opt c;
+     r_disable_exact := r_disable_exact c; r_disable_comments := r_disable_comments c; r_mode := r_mode c |}.
+
+Definition rwith_inverse (b : bool) (c : rcfg) : rcfg :=
+  {| r_tau := r_tau c; r_targets := r_targets c; r_ns := r_ns c; r_shapes_ns := r_shapes_ns c;
+     r_cap := r_cap c; r_inverse := b; r_remove_empty := r_remove_empty c;
+     r_discard_useless := r_discard_useless c; r_keep_less_specific := r_keep_less_specific c;
+     r_all_compliant := r_all_compliant c; r_disable_or := r_disable_or c;
+     r_allow_redundant_or := r_allow_redundant_or c; r_allow_opt := r_allow_opt c;
+     r_disable_exact := r_disable_exact c; r_disable_comments := r_disable_comments c; r_mode := r_mode c |}.
+
+Ltac fagree := unfold front_agree; cbn; repeat split; reflexivity.
+
+(** O1 *)
+Theorem run_disable_comments fa c thr g :
+  run_shapes fa (rwith_disable_comments true c) thr g =
+  map_res (on_shapes (map_shapes drop_comments)) (run_shapes fa (rwith_disable_comments false c) thr g).
+Proof.
+  apply run_shapes_post; [fagree|]. intros ns P C.
+  exact (O1_disable_comments fa (scfg_of c ns) thr P C).
+Qed.
+
+(** O2 *)
+Theorem run_allow_opt fa c thr g :
+  run_shapes fa (rwith_allow_opt false c) thr g =
+  map_res (on_shapes (map_shapes opt_to_star)) (run_shapes fa (rwith_allow_opt true c) thr g).
+Proof.
+  apply run_shapes_post; [fagree|]. intros ns P C.
+  exact (O2_allow_opt fa (scfg_of c ns) thr P C).
+Qed.
+
+(** O3 *)
+Theorem run_disable_exact fa c thr g :
+  run_shapes fa (rwith_disable_exact true c) thr g =
+  map_res (on_shapes (map_shapes generalize_exact)) (run_shapes fa (rwith_disable_exact false c) thr g).
+Proof.
+  apply run_shapes_post; [fagree|]. intros ns P C.
+  exact (O3_disable_exact fa (scfg_of c ns) thr P C).
+Qed.
+
+(** O4, on its domain *)
+Definition rO4_dom (c : rcfg) : Prop := r_disable_exact c = false \/ r_disable_comments c = true.
+
+Theorem run_all_compliant fa c thr g ns L1 :
+  rO4_dom c ->
+  run_shapes fa (rwith_all_compliant true c) thr g = inl (ns, L1) ->
+  exists L0, run_shapes fa (rwith_all_compliant false c) thr g = inl (ns, L0) /\
+             map_err (relax_shape fa (scfg_of c ns)) L0 = inl L1.
+Proof.
+  intros Hd H. rewrite run_shapes_front in *.
+  change (full_ns (rwith_all_compliant true c)) with (full_ns c) in H.
+  change (full_ns (rwith_all_compliant false c)) with (full_ns c).
+  change (front (rwith_all_compliant true c) g) with (front c g) in H.
+  change (front (rwith_all_compliant false c) g) with (front c g).
+  destruct (full_ns c) as [ns0|]; [|discriminate].
+  destruct (front c g) as [[P C]|e]; [|discriminate].
+  change (scfg_of (rwith_all_compliant true c) ns0) with (with_all_compliant true (scfg_of c ns0)) in H.
+  change (scfg_of (rwith_all_compliant false c) ns0) with (with_all_compliant false (scfg_of c ns0)).
+  destruct (shex fa (with_all_compliant true (scfg_of c ns0)) thr P C) as [l|e] eqn:E; [|discriminate].
+  injection H as <- <-.
+  destruct (O4_all_compliant fa (scfg_of c ns0) thr P C l Hd E) as [L0 [E0 Hm]].
+  exists L0. rewrite E0. auto.
+Qed.
+
+Theorem run_all_compliant_failure_mono fa c thr g e :
+  rO4_dom c ->
+  run_shapes fa (rwith_all_compliant false c) thr g = inr e ->
+  exists e', run_shapes fa (rwith_all_compliant true c) thr g = inr e'.
+Proof.
+  intros Hd H. rewrite run_shapes_front in *.
+  change (full_ns (rwith_all_compliant false c)) with (full_ns c) in H.
+  change (full_ns (rwith_all_compliant true c)) with (full_ns c).
+  change (front (rwith_all_compliant false c) g) with (front c g) in H.
+  change (front (rwith_all_compliant true c) g) with (front c g).
+  destruct (full_ns c) as [ns0|]; [|eauto].
+  destruct (front c g) as [[P C]|e0]; [|eauto].
+  change (scfg_of (rwith_all_compliant false c) ns0) with (with_all_compliant false (scfg_of c ns0)) in H.
+  change (scfg_of (rwith_all_compliant true c) ns0) with (with_all_compliant true (scfg_of c ns0)).
+  destruct (shex fa (with_all_compliant false (scfg_of c ns0)) thr P C) as [l|e1] eqn:E; [discriminate|].
+  destruct (O4_failure_mono fa (scfg_of c ns0) thr P C e1 Hd E) as [e' ->]. eauto.
+Qed.
+
+(** O5: when both runs succeed *)
+Theorem run_disable_or fa c thr g ns_t L_t ns_f L_f :
+  run_shapes fa (rwith_disable_or true c) thr g = inl (ns_t, L_t) ->
+  run_shapes fa (rwith_disable_or false c) thr g = inl (ns_f, L_f) ->
+  ns_t = ns_f /\ Forall2 (shape_rel (fun _ => or_rel)) L_t L_f.
+Proof.
+  intros H1 H2. rewrite run_shapes_front in *.
+  change (full_ns (rwith_disable_or true c)) with (full_ns c) in H1.
+  change (full_ns (rwith_disable_or false c)) with (full_ns c) in H2.
+  change (front (rwith_disable_or true c) g) with (front c g) in H1.
+  change (front (rwith_disable_or false c) g) with (front c g) in H2.
+  destruct (full_ns c) as [ns0|]; [|discriminate].
+  destruct (front c g) as [[P C]|e]; [|discriminate].
+  change (scfg_of (rwith_disable_or true c) ns0) with (with_disable_or true (scfg_of c ns0)) in H1.
+  change (scfg_of (rwith_disable_or false c) ns0) with (with_disable_or false (scfg_of c ns0)) in H2.
+  destruct (shex fa (with_disable_or true (scfg_of c ns0)) thr P C) as [lt|] eqn:E1; [|discriminate].
+  destruct (shex fa (with_disable_or false (scfg_of c ns0)) thr P C) as [lf|] eqn:E2; [|discriminate].
+  injection H1 as <- <-. injection H2 as <- <-. split; [reflexivity|].
+  exact (O5_disable_or fa (scfg_of c ns0) thr P C lt lf E1 E2).
+Qed.
